@@ -30,6 +30,8 @@
 #include <fcppt/math/box/object_impl.hpp>
 #include <fcppt/math/box/shrink.hpp>
 #include <fcppt/math/box/stretch_absolute.hpp>
+#include <fcppt/math/box/structure_cast.hpp>
+#include <fcppt/cast/static_cast_fun.hpp>
 #include <fcppt/math/dim/comparison.hpp>
 #include <fcppt/math/dim/static.hpp>
 #include <fcppt/math/vector/comparison.hpp>
@@ -41,7 +43,10 @@
 #include <algorithm>
 #include <array>
 #include <bitset>
+#include <cmath>
 #include <cstddef>
+#include <cstdio>
+#include <limits>
 #include <deque>
 #include <map>
 #include <string>
@@ -61,6 +66,8 @@ template <> struct tname<int> { static constexpr char const *v = "int"; };
 template <> struct tname<unsigned> { static constexpr char const *v = "unsigned"; };
 template <> struct tname<long> { static constexpr char const *v = "long"; };
 template <> struct tname<unsigned long> { static constexpr char const *v = "ulong"; };
+template <> struct tname<float> { static constexpr char const *v = "float"; };
+template <> struct tname<double> { static constexpr char const *v = "double"; };
 
 // names handed to vrt::begin_text must have stable addresses and stable contents
 inline char const *intern(std::string const &s)
@@ -76,9 +83,160 @@ inline char const *intern(std::string const &s)
   return p;
 }
 
+// Reference coordinates are integers ("lattice indices").  A coordinate policy C maps an index q to the
+// value C::to(q) of the coordinate type T, strictly monotonically (q1 < q2  <=>  to(q1) < to(q2)), so the
+// half-open point-set model can be evaluated exactly on the indices whatever T is.  Box corners sit on the
+// indices that are multiples of C::stride; the indices in between are extra probe points.
 template <sz N> using pt = std::array<ll, N>;
+constexpr ll off_lattice = std::numeric_limits<ll>::min() / 4; // a value of T that is no lattice value
 
-// reference box: corners as plain integers
+inline ll floor_div(ll a, ll b) { return a >= 0 ? a / b : -((-a + b - 1) / b); }
+
+// hook: number of reads of moved-from scalars since the last call (only a scalar with observable moves counts)
+template <class T> struct move_probe
+{
+  static unsigned long take() { return 0; }
+};
+
+// built-in integers and integer-like user-defined scalars: index q is the value q
+template <class T> struct coord_int
+{
+  static constexpr ll stride = 1;
+  static constexpr bool exact = true;  // T's arithmetic is exact integer arithmetic on the lattice
+  static constexpr bool arith = true;  // functions whose result involves arithmetic are checked
+  static constexpr ll margin = 1;      // probe points reach one corner step beyond the corner range
+  static constexpr bool clip_at_zero = std::is_unsigned_v<T>;
+  static T to(ll q) { return static_cast<T>(q); }
+  static bool from(T const &v, ll &q)
+  {
+    q = static_cast<ll>(v);
+    return true;
+  }
+  static std::string show(ll q) { return std::to_string(q); }
+  static std::string raw(T const &v) { return std::to_string(static_cast<ll>(v)); }
+  static char const *suffix() { return ""; }
+  static std::pair<ll, ll> range(ll r)
+  {
+    if constexpr (std::is_unsigned_v<T>)
+      return {0, 2 * r};
+    else
+      return {-r, r};
+  }
+};
+
+// floating point, decimal lattice: corner c has the NON-dyadic value c/10 (index 3c); indices 3c-1 and 3c+1
+// are its two floating-point neighbours (probe points only)
+template <class T> struct coord_dec
+{
+  static constexpr ll stride = 3;
+  static constexpr bool exact = false;
+  static constexpr bool arith = true;
+  static constexpr ll margin = 1;
+  static constexpr bool clip_at_zero = false;
+  static T base(ll c) { return static_cast<T>(c) / static_cast<T>(10); }
+  static T to(ll q)
+  {
+    ll const c = floor_div(q + 1, 3), r = q - 3 * c;
+    T const v = base(c);
+    if (r == 0)
+      return v;
+    return std::nextafter(v, r > 0 ? std::numeric_limits<T>::infinity() : -std::numeric_limits<T>::infinity());
+  }
+  static bool from(T const &v, ll &q)
+  {
+    if (!std::isfinite(v) || std::fabs(v) > static_cast<T>(1e6))
+      return false;
+    ll const c0 = std::llround(static_cast<double>(v) * 10.0);
+    for (ll c = c0 - 1; c <= c0 + 1; ++c)
+      for (ll r = -1; r <= 1; ++r)
+        if (to(3 * c + r) == v)
+        {
+          q = 3 * c + r;
+          return true;
+        }
+    return false;
+  }
+  static std::string show(ll q)
+  {
+    ll const c = floor_div(q + 1, 3), r = q - 3 * c, a = c < 0 ? -c : c;
+    std::string s = (c < 0 ? "-" : "") + std::to_string(a / 10) + "." + std::to_string(a % 10);
+    return s + (r > 0 ? "+ulp" : (r < 0 ? "-ulp" : ""));
+  }
+  static std::string raw(T const &v)
+  {
+    char b[64];
+    std::snprintf(b, sizeof b, "%.17g", static_cast<double>(v));
+    return b;
+  }
+  static char const *suffix() { return ""; }
+  static std::pair<ll, ll> range(ll r) { return {-r, r}; }
+};
+
+// floating point, extreme values: infinities, largest/smallest magnitudes and ordinary values.  Only the
+// functions that compare and select (no arithmetic) are run on it.  V=0: 13 values, V=1: 7 values.
+template <class T, int V> struct coord_ext
+{
+  static constexpr ll stride = 1;
+  static constexpr bool exact = false;
+  static constexpr bool arith = false;
+  static constexpr ll margin = 0;
+  static constexpr bool clip_at_zero = false;
+  using lim = std::numeric_limits<T>;
+  static constexpr ll half = V == 0 ? 6 : 3;
+  static T to(ll q)
+  {
+    if constexpr (V == 0)
+    {
+      T const t[13] = {-lim::infinity(), -lim::max(), static_cast<T>(-1e30), static_cast<T>(-2.7), static_cast<T>(-0.1),
+                       -lim::denorm_min(), static_cast<T>(0), lim::denorm_min(), lim::min(), static_cast<T>(0.1),
+                       static_cast<T>(1e30), lim::max(), lim::infinity()};
+      return t[q + half];
+    }
+    else
+    {
+      T const t[7] = {-lim::infinity(), -lim::max(), static_cast<T>(-0.1), static_cast<T>(0), lim::denorm_min(), lim::max(),
+                      lim::infinity()};
+      return t[q + half];
+    }
+  }
+  static bool from(T const &v, ll &q)
+  {
+    for (ll k = -half; k <= half; ++k)
+      if (to(k) == v)
+      {
+        q = k;
+        return true;
+      }
+    return false;
+  }
+  static std::string show(ll q)
+  {
+    if constexpr (V == 0)
+    {
+      char const *n[13] = {"-inf", "-max", "-1e30", "-2.7", "-0.1", "-denorm_min", "0", "denorm_min", "min", "0.1", "1e30", "max", "inf"};
+      return n[q + half];
+    }
+    else
+    {
+      char const *n[7] = {"-inf", "-max", "-0.1", "0", "denorm_min", "max", "inf"};
+      return n[q + half];
+    }
+  }
+  static std::string raw(T const &v) { return coord_dec<T>::raw(v); }
+  static char const *suffix() { return ":extreme"; }
+  static std::pair<ll, ll> range(ll) { return {-half, half}; }
+};
+
+template <class T, class = void> struct default_coord
+{
+  using type = coord_int<T>;
+};
+template <class T> struct default_coord<T, std::enable_if_t<std::is_floating_point_v<T>>>
+{
+  using type = coord_dec<T>;
+};
+
+// reference box: corners as lattice indices
 template <sz N> struct rbox
 {
   pt<N> p{}, m{};
@@ -94,60 +252,29 @@ template <sz N> inline bool member(rbox<N> const &b, pt<N> const &x)
   return true;
 }
 
-template <sz N> inline std::string show(pt<N> const &x)
-{
-  std::string r = "(";
-  for (sz i = 0; i < N; ++i)
-  {
-    if (i)
-      r += ",";
-    r += std::to_string(x[i]);
-  }
-  return r + ")";
-}
-template <sz N> inline std::string show(rbox<N> const &b) { return "[" + show<N>(b.p) + ";" + show<N>(b.m) + ")"; }
-
-template <class T, sz N> inline fcppt::math::vector::static_<T, N> mkvec(pt<N> const &a)
+template <class T, sz N> inline fcppt::math::vector::static_<T, N> mkvec_t(std::array<T, N> const &a)
 {
   using V = fcppt::math::vector::static_<T, N>;
   if constexpr (N == 1)
-    return V(static_cast<T>(a[0]));
+    return V(a[0]);
   else if constexpr (N == 2)
-    return V(static_cast<T>(a[0]), static_cast<T>(a[1]));
+    return V(a[0], a[1]);
   else
-    return V(static_cast<T>(a[0]), static_cast<T>(a[1]), static_cast<T>(a[2]));
+    return V(a[0], a[1], a[2]);
 }
-template <class T, sz N> inline fcppt::math::dim::static_<T, N> mkdim(pt<N> const &a)
+template <class T, sz N> inline fcppt::math::dim::static_<T, N> mkdim_t(std::array<T, N> const &a)
 {
   using D = fcppt::math::dim::static_<T, N>;
   if constexpr (N == 1)
-    return D(static_cast<T>(a[0]));
+    return D(a[0]);
   else if constexpr (N == 2)
-    return D(static_cast<T>(a[0]), static_cast<T>(a[1]));
+    return D(a[0], a[1]);
   else
-    return D(static_cast<T>(a[0]), static_cast<T>(a[1]), static_cast<T>(a[2]));
-}
-template <class T, sz N> inline fcppt::math::box::object<T, N> mkbox(rbox<N> const &b)
-{
-  return fcppt::math::box::object<T, N>(mkvec<T, N>(b.p), mkvec<T, N>(b.m)); // (min, max) constructor
-}
-template <class V, sz N> inline pt<N> rdvec(V const &v)
-{
-  pt<N> r{};
-  for (sz i = 0; i < N; ++i)
-    r[i] = static_cast<ll>(v.get_unsafe(i));
-  return r;
-}
-template <class T, sz N> inline rbox<N> rdbox(fcppt::math::box::object<T, N> const &b)
-{
-  rbox<N> r;
-  r.p = rdvec<typename fcppt::math::box::object<T, N>::vector, N>(b.pos());
-  r.m = rdvec<typename fcppt::math::box::object<T, N>::vector, N>(b.max());
-  return r;
+    return D(a[0], a[1], a[2]);
 }
 
 // all points of [lo,hi]^N in lexicographic order
-template <sz N> inline std::vector<pt<N>> grid(ll lo, ll hi)
+template <sz N> inline std::vector<pt<N>> grid(ll lo, ll hi, ll step = 1)
 {
   std::vector<pt<N>> r;
   if (hi < lo)
@@ -161,9 +288,9 @@ template <sz N> inline std::vector<pt<N>> grid(ll lo, ll hi)
     while (i > 0)
     {
       --i;
-      if (x[i] < hi)
+      if (x[i] + step <= hi)
       {
-        ++x[i];
+        x[i] += step;
         break;
       }
       x[i] = lo;
@@ -173,9 +300,10 @@ template <sz N> inline std::vector<pt<N>> grid(ll lo, ll hi)
   }
 }
 
-// interval distance as documented in fcppt/math/interval_distance.hpp for [a,b], [c,d] with a<b, c<d;
-// returns false where the documentation does not determine the value (containment with a shared end point)
-inline bool ref_interval_distance(ll a, ll b, ll c, ll d, ll &want)
+// interval distance as documented in fcppt/math/interval_distance.hpp for [a,b], [c,d] with a<b, c<d, in the
+// arithmetic of W; returns false where the documentation does not determine the value (containment with a
+// shared end point)
+template <class W> inline bool ref_interval_distance(W a, W b, W c, W d, W &want)
 {
   if (b <= c)
     want = c - b; // disjoint or touching
@@ -194,27 +322,99 @@ inline bool ref_interval_distance(ll a, ll b, ll c, ll d, ll &want)
   return true;
 }
 
-template <class T, sz N> struct dom
+#define C13_FWD(f) [](auto &&...c13_a) { return f(std::forward<decltype(c13_a)>(c13_a)...); }
+
+template <class T, sz N, class C = typename default_coord<T>::type> struct dom
 {
   using box = fcppt::math::box::object<T, N>;
   using vec = typename box::vector;
   using dimt = typename box::dim;
-  static constexpr bool is_unsigned = std::is_unsigned_v<T>;
-  // comma-free spellings for use inside VRT_CHECK
-  static rbox<N> rd(box const &b) { return rdbox<T, N>(b); }
-  static pt<N> rdv(vec const &v) { return rdvec<vec, N>(v); }
-  static pt<N> rdd(dimt const &v) { return rdvec<dimt, N>(v); }
+  using tarr = std::array<T, N>;
+  using mask = std::bitset<C::stride == 1 ? 512 : 1024>;
+  static constexpr ll S = C::stride;
+  static constexpr bool is_unsigned = C::clip_at_zero;
 
-  ll lo, hi;   // corner range
-  ll llo, lhi; // lattice range
-  ll R, L;
+  // lattice indices <-> values of T
+  static tarr vals(pt<N> const &a)
+  {
+    tarr r{};
+    for (sz i = 0; i < N; ++i)
+      r[i] = C::to(a[i]);
+    return r;
+  }
+  static vec mkvec(pt<N> const &a) { return mkvec_t<T, N>(vals(a)); }
+  static dimt mkdim(pt<N> const &a) { return mkdim_t<T, N>(vals(a)); }
+  static box mkbox(rbox<N> const &b) { return box(mkvec(b.p), mkvec(b.m)); } // (min, max) constructor
+  template <class V> static pt<N> rdany(V const &v)
+  {
+    pt<N> r{};
+    for (sz i = 0; i < N; ++i)
+      if (!C::from(v.get_unsafe(i), r[i]))
+        r[i] = off_lattice;
+    return r;
+  }
+  static pt<N> rdv(vec const &v) { return rdany(v); }
+  static pt<N> rdd(dimt const &v) { return rdany(v); }
+  static rbox<N> rd(box const &b)
+  {
+    rbox<N> r;
+    r.p = rdany(b.pos());
+    r.m = rdany(b.max());
+    return r;
+  }
+  static std::string sh(pt<N> const &x)
+  {
+    std::string r = "(";
+    for (sz i = 0; i < N; ++i)
+    {
+      if (i)
+        r += ",";
+      r += x[i] == off_lattice ? std::string("?") : C::show(x[i]);
+    }
+    return r + ")";
+  }
+  static std::string sh(rbox<N> const &b) { return "[" + sh(b.p) + ";" + sh(b.m) + ")"; }
+  // the actual values, whether on the lattice or not
+  template <class V> static std::string raw(V const &v)
+  {
+    std::string r = "(";
+    for (sz i = 0; i < N; ++i)
+    {
+      if (i)
+        r += ",";
+      r += C::raw(v.get_unsafe(i));
+    }
+    return r + ")";
+  }
+  static std::string raw(box const &b) { return "[" + raw(b.pos()) + ";" + raw(b.max()) + ")"; }
+  static bool same(bool a, bool b) { return a == b; }
+  static bool same(vec const &a, vec const &b) { return a == b; }
+  static bool same(box const &a, box const &b) { return a.pos() == b.pos() && a.max() == b.max(); }
+  // call f with the arguments as lvalues and again with temporaries (rvalues); the results must agree
+  template <class F, class... A> static auto both(F f, std::string const &s, A const &...a)
+  {
+    auto r = f(a...);
+    auto r2 = f(A(a)...);
+    if (!same(r, r2))
+      vrt::fail(s + ":rvalue_args", "the result differs when the arguments are temporaries");
+    return r;
+  }
+  static void probe(std::string const &s)
+  {
+    if (unsigned long const n = move_probe<T>::take())
+      vrt::fail(s + ":read_of_moved_from_scalar", std::to_string(n) + " reads of a moved-from coordinate value");
+  }
+
+  ll lo, hi;   // corner range (corner c has lattice index S*c)
+  ll plo, phi; // probe-point range (lattice indices)
+  ll R;
   std::vector<rbox<N>> boxes; // every box with corners in [lo,hi]
   std::vector<box> fboxes;    // the same as real fcppt objects
-  std::vector<mask> masks;    // explicit point sets over the lattice
+  std::vector<mask> masks;    // explicit point sets over the probe points
   std::vector<char> nonempty, inverted;
   std::vector<pt<N>> minpt, maxpt; // extent of the point set (non-empty boxes only)
   std::vector<std::string> names;
-  std::vector<pt<N>> points;     // lattice
+  std::vector<pt<N>> points;     // probe points
   std::vector<std::size_t> iter; // boxes that are iterated over (all, or the non-empty ones)
   std::string tag;
 
@@ -223,35 +423,44 @@ template <class T, sz N> struct dom
   std::ptrdiff_t index_of(rbox<N> const &b) const
   {
     std::size_t idx = 0;
-    for (sz i = 0; i < N; ++i)
-    {
-      if (b.p[i] < lo || b.p[i] > hi)
-        return -1;
-      idx = idx * static_cast<std::size_t>(R) + static_cast<std::size_t>(b.p[i] - lo);
-    }
-    for (sz i = 0; i < N; ++i)
-    {
-      if (b.m[i] < lo || b.m[i] > hi)
-        return -1;
-      idx = idx * static_cast<std::size_t>(R) + static_cast<std::size_t>(b.m[i] - lo);
-    }
+    for (int which = 0; which < 2; ++which)
+      for (sz i = 0; i < N; ++i)
+      {
+        ll const q = which == 0 ? b.p[i] : b.m[i];
+        if (q == off_lattice)
+          return -1;
+        ll const c = floor_div(q, S);
+        if (c * S != q || c < lo || c > hi)
+          return -1;
+        idx = idx * static_cast<std::size_t>(R) + static_cast<std::size_t>(c - lo);
+      }
     return static_cast<std::ptrdiff_t>(idx);
   }
 
   dom(ll lo_, ll hi_, bool only_nonempty) : lo(lo_), hi(hi_)
   {
-    llo = is_unsigned ? std::max<ll>(lo - 1, 0) : lo - 1;
-    lhi = hi + 1;
+    plo = S * (lo - C::margin);
+    if (is_unsigned)
+      plo = std::max<ll>(plo, 0);
+    phi = S * (hi + C::margin);
     R = hi - lo + 1;
-    L = lhi - llo + 1;
-    tag = std::string("<") + tname<T>::v + "," + std::to_string(N) + ">";
-    points = grid<N>(llo, lhi);
-    if (points.size() > mask_bits)
+    tag = std::string("<") + tname<T>::v + C::suffix() + "," + std::to_string(N) + ">";
+    points = grid<N>(plo, phi);
+    if (points.size() > mask().size())
     {
-      vrt::fail("harness:mask_too_small", "lattice has more points than the mask has bits");
+      vrt::fail("harness:mask_too_small", "more probe points than the mask has bits");
       points.clear();
     }
-    std::vector<pt<N>> const corners = grid<N>(lo, hi);
+    for (ll q = plo; q < phi; ++q)
+      if (!(C::to(q) < C::to(q + 1)))
+        vrt::fail("harness:lattice_not_monotone", "to(" + std::to_string(q) + ") !< to(" + std::to_string(q + 1) + ")");
+    for (ll q = plo; q <= phi; ++q)
+    {
+      ll back = 0;
+      if (!C::from(C::to(q), back) || back != q)
+        vrt::fail("harness:lattice_round_trip", "from(to(" + std::to_string(q) + ")) gives " + std::to_string(back));
+    }
+    std::vector<pt<N>> const corners = grid<N>(S * lo, S * hi, S);
     for (pt<N> const &p : corners)
       for (pt<N> const &m : corners)
       {
@@ -288,11 +497,12 @@ template <class T, sz N> struct dom
       inverted.push_back(inv ? 1 : 0);
       minpt.push_back(mn);
       maxpt.push_back(mx);
-      names.push_back(show<N>(b));
-      fboxes.push_back(mkbox<T, N>(b));
+      names.push_back(sh(b));
+      fboxes.push_back(mkbox(b));
       if (!only_nonempty || any)
         iter.push_back(i);
     }
+    probe("harness:setup");
   }
 
   // "interesting" relative placement of two boxes: both non-empty and they share a boundary coordinate
@@ -336,130 +546,159 @@ template <class T, sz N> struct dom
         d += " b=";
         d += names[b];
         mask const common = masks[a] & masks[b];
-        bool const both = nonempty[a] && nonempty[b];
+        bool const both_ne = nonempty[a] && nonempty[b];
         bool const inter = interesting(a, b);
 
         // intersects: for non-empty boxes, true exactly when a common point exists
-        if (both && vrt::begin_text(n_intersects, d))
+        if (both_ne && vrt::begin_text(n_intersects, d))
         {
           vrt::nontrivial(inter);
           vrt::maybe_sample();
-          bool const r = fcppt::math::box::intersects(A, B);
+          bool const r = both(C13_FWD(fcppt::math::box::intersects), s_intersects, A, B);
           VRT_CHECK(r == common.any(), s_intersects + (r ? ":spurious" : ":missed"), "intersects=%d, common points=%zu",
                     int(r), common.count());
+          probe(s_intersects);
         }
-        // intersection: contains exactly the common points (all boxes); null box for non-empty disjoint inputs
+        // intersection: contains exactly the common points (all boxes); null box for non-empty disjoint inputs.
+        // Its corners are selected from the inputs' corners (or are the null box), so they are lattice values
+        // exactly, for every coordinate type.
         if (vrt::begin_text(n_intersection, d))
         {
           vrt::nontrivial(inter);
           vrt::maybe_sample();
-          rbox<N> const r = rd(fcppt::math::box::intersection(A, B));
+          box const R_ = both(C13_FWD(fcppt::math::box::intersection), s_intersection, A, B);
+          rbox<N> const r = rd(R_);
           std::ptrdiff_t const ri = index_of(r);
           if (ri < 0)
-            vrt::fail(s_intersection + ":corner_outside_inputs", "result " + show<N>(r));
+            vrt::fail(s_intersection + ":corner_not_from_inputs", "result " + raw(R_) + " has a corner that is no corner of a or b");
           else
             VRT_CHECK(masks[static_cast<std::size_t>(ri)] == common, s_intersection + ":point_set",
-                      "result %s has %zu points, the boxes have %zu common points", show<N>(r).c_str(),
+                      "result %s has %zu points, the boxes have %zu common points", sh(r).c_str(),
                       masks[static_cast<std::size_t>(ri)].count(), common.count());
-          if (both && common.none())
+          if (both_ne && common.none())
             VRT_CHECK(r == null_box, s_intersection + ":not_null", "disjoint non-empty boxes gave %s, not the null box",
-                      show<N>(r).c_str());
+                      raw(R_).c_str());
+          probe(s_intersection);
         }
         // contains(outer=a, inner=b): for non-empty inner, true exactly when inner is a subset of outer
         if (nonempty[b] && vrt::begin_text(n_contains, d))
         {
           vrt::nontrivial(inter);
-          bool const r = fcppt::math::box::contains(A, B);
+          bool const r = both(C13_FWD(fcppt::math::box::contains), s_contains, A, B);
           bool const subset = (masks[b] & ~masks[a]).none();
           VRT_CHECK(r == subset, s_contains + (r ? ":spurious" : ":missed"), "contains=%d, inner\\outer has %zu points",
                     int(r), (masks[b] & ~masks[a]).count());
+          probe(s_contains);
         }
         // extend_bounding_box of two non-empty boxes: the smallest box containing both
-        if (both && vrt::begin_text(n_extend, d))
+        if (both_ne && vrt::begin_text(n_extend, d))
         {
           vrt::nontrivial(inter);
-          rbox<N> const r = rd(fcppt::math::box::extend_bounding_box(A, B));
+          box const R_ = both(C13_FWD(fcppt::math::box::extend_bounding_box), s_extend, A, B);
+          rbox<N> const r = rd(R_);
           rbox<N> want;
           for (sz i = 0; i < N; ++i)
           {
             want.p[i] = std::min(minpt[a][i], minpt[b][i]);
             want.m[i] = std::max(maxpt[a][i], maxpt[b][i]) + 1;
           }
-          VRT_CHECK(r == want, s_extend + ":wrong", "got %s, hull of the two point sets is %s", show<N>(r).c_str(),
-                    show<N>(want).c_str());
+          VRT_CHECK(r == want, s_extend + ":wrong", "got %s, hull of the two point sets is %s", raw(R_).c_str(),
+                    sh(want).c_str());
           // the same from the point sets alone: contains the union, and no face can be moved inwards
           std::ptrdiff_t const ri = index_of(r);
           mask const uni = masks[a] | masks[b];
           if (ri < 0)
-            vrt::fail(s_extend + ":corner_outside_inputs", "result " + show<N>(r));
+            vrt::fail(s_extend + ":corner_not_from_inputs", "result " + raw(R_));
           else
           {
             VRT_CHECK((uni & ~masks[static_cast<std::size_t>(ri)]).none(), s_extend + ":not_superset",
-                      "result %s misses points of the inputs", show<N>(r).c_str());
+                      "result %s misses points of the inputs", sh(r).c_str());
             for (sz i = 0; i < N; ++i)
               for (int side = 0; side < 2; ++side)
               {
                 rbox<N> s = r;
                 if (side == 0)
-                  ++s.p[i];
+                  s.p[i] += S;
                 else
-                  --s.m[i];
+                  s.m[i] -= S;
                 std::ptrdiff_t const si = index_of(s);
                 if (si >= 0)
                   VRT_CHECK((uni & ~masks[static_cast<std::size_t>(si)]).any(), s_extend + ":not_minimal",
-                            "result %s can be shrunk on axis %d side %d", show<N>(r).c_str(), int(i), side);
+                            "result %s can be shrunk on axis %d side %d", sh(r).c_str(), int(i), side);
               }
           }
+          probe(s_extend);
         }
-        // distance: per axis the documented interval distance (only where the documentation determines it)
-        if (both)
+        if constexpr (C::arith)
         {
-          pt<N> want{};
-          bool defined = true, neg = false;
-          for (sz i = 0; i < N && defined; ++i)
+          // distance: per axis the documented interval distance (only where the documentation determines it),
+          // evaluated in exact integers for integer-like T and with the documented formula in T otherwise
+          if (both_ne)
           {
-            defined = ref_interval_distance(boxes[a].p[i], boxes[a].m[i], boxes[b].p[i], boxes[b].m[i], want[i]);
-            if (want[i] < 0)
-              neg = true;
+            using W = std::conditional_t<C::exact, ll, T>;
+            auto const w = [](ll q) -> W
+            {
+              if constexpr (C::exact)
+                return q;
+              else
+                return C::to(q);
+            };
+            std::array<W, N> want{};
+            bool defined = true, neg = false;
+            for (sz i = 0; i < N && defined; ++i)
+            {
+              defined = ref_interval_distance<W>(w(boxes[a].p[i]), w(boxes[a].m[i]), w(boxes[b].p[i]), w(boxes[b].m[i]), want[i]);
+              if (want[i] < 0)
+                neg = true;
+            }
+            if (defined && !(is_unsigned && neg) && vrt::begin_text(n_distance, d))
+            {
+              vrt::nontrivial(neg || inter);
+              vec const r = both(C13_FWD(fcppt::math::box::distance), s_distance, A, B);
+              bool ok = true;
+              for (sz i = 0; i < N; ++i)
+              {
+                T expect{};
+                if constexpr (C::exact)
+                  expect = C::to(want[i]);
+                else
+                  expect = want[i];
+                if (!(r.get_unsafe(i) == expect))
+                  ok = false;
+              }
+              VRT_CHECK(ok, s_distance + ":wrong", "got %s", raw(r).c_str());
+              probe(s_distance);
+            }
           }
-          if (defined && !(is_unsigned && neg) && vrt::begin_text(n_distance, d))
+          // comparison: == is equality of the corners; < is the documented lexicographic order on (pos,size)
+          if (vrt::begin_text(n_cmp, d))
           {
-            vrt::nontrivial(neg || inter);
-            pt<N> const r = rdv(fcppt::math::box::distance(A, B));
-            bool ok = true;
+            vrt::nontrivial(a != b && boxes[a].p == boxes[b].p);
+            bool const eq = A == B, ne = A != B, lt = A < B, gt = B < A;
+            bool const same_box = boxes[a] == boxes[b];
+            VRT_CHECK(eq == same_box, s_cmp + ":eq", "operator== gives %d", int(eq));
+            VRT_CHECK(ne == !same_box, s_cmp + ":ne", "operator!= gives %d", int(ne));
+            std::array<T, 2 * N> ka{}, kb{};
             for (sz i = 0; i < N; ++i)
-              if (static_cast<T>(want[i]) != static_cast<T>(r[i]))
-                ok = false;
-            VRT_CHECK(ok, s_distance + ":wrong", "got %s want %s", show<N>(r).c_str(), show<N>(want).c_str());
+            {
+              ka[i] = C::to(boxes[a].p[i]);
+              kb[i] = C::to(boxes[b].p[i]);
+              // size in T's own arithmetic (wraps for inverted unsigned boxes, as box::size() does)
+              ka[N + i] = static_cast<T>(C::to(boxes[a].m[i]) - C::to(boxes[a].p[i]));
+              kb[N + i] = static_cast<T>(C::to(boxes[b].m[i]) - C::to(boxes[b].p[i]));
+            }
+            VRT_CHECK(lt == (ka < kb), s_cmp + ":lt", "operator< gives %d, lexicographic (pos,size) gives %d", int(lt),
+                      int(ka < kb));
+            VRT_CHECK(int(lt) + int(gt) + int(eq) == 1, s_cmp + ":trichotomy", "lt=%d gt=%d eq=%d", int(lt), int(gt),
+                      int(eq));
+            probe(s_cmp);
           }
-        }
-        // comparison: == is equality of the corners; < is the documented lexicographic order on (pos,size)
-        if (vrt::begin_text(n_cmp, d))
-        {
-          vrt::nontrivial(a != b && boxes[a].p == boxes[b].p);
-          bool const eq = A == B, ne = A != B, lt = A < B, gt = B < A;
-          bool const same = boxes[a] == boxes[b];
-          VRT_CHECK(eq == same, s_cmp + ":eq", "operator== gives %d", int(eq));
-          VRT_CHECK(ne == !same, s_cmp + ":ne", "operator!= gives %d", int(ne));
-          std::array<T, 2 * N> ka{}, kb{};
-          for (sz i = 0; i < N; ++i)
-          {
-            ka[i] = static_cast<T>(boxes[a].p[i]);
-            kb[i] = static_cast<T>(boxes[b].p[i]);
-            // size in T's own arithmetic (wraps for inverted unsigned boxes, as box::size() does)
-            ka[N + i] = static_cast<T>(static_cast<T>(boxes[a].m[i]) - static_cast<T>(boxes[a].p[i]));
-            kb[N + i] = static_cast<T>(static_cast<T>(boxes[b].m[i]) - static_cast<T>(boxes[b].p[i]));
-          }
-          VRT_CHECK(lt == (ka < kb), s_cmp + ":lt", "operator< gives %d, lexicographic (pos,size) gives %d", int(lt),
-                    int(ka < kb));
-          VRT_CHECK(int(lt) + int(gt) + int(eq) == 1, s_cmp + ":trichotomy", "lt=%d gt=%d eq=%d", int(lt), int(gt),
-                    int(eq));
         }
       }
     }
   }
 
-  // ------------------------------------------------------------------ box x lattice point
+  // ------------------------------------------------------------------ box x probe point
   void point_cases() const
   {
     char const *n_cp = fn("contains_point"), *n_ep = fn("extend_bounding_box(box,point)");
@@ -478,7 +717,7 @@ template <class T, sz N> struct dom
         d.assign("a=");
         d += names[a];
         d += " p=";
-        d += show<N>(x);
+        d += sh(x);
         bool const in = member<N>(ra, x);
         if (in != masks[a].test(k))
           vrt::fail("harness:mask", "mask bit differs from the membership predicate");
@@ -486,13 +725,14 @@ template <class T, sz N> struct dom
         for (sz i = 0; i < N; ++i)
           if (x[i] == ra.p[i] - 1 || x[i] == ra.p[i] || x[i] == ra.m[i] - 1 || x[i] == ra.m[i])
             boundary = true;
-        vec const X = mkvec<T, N>(x);
+        vec const X = mkvec(x);
         if (vrt::begin_text(n_cp, d))
         {
           vrt::nontrivial(nonempty[a] && boundary);
           vrt::maybe_sample();
-          bool const r = fcppt::math::box::contains_point(A, X);
+          bool const r = both(C13_FWD(fcppt::math::box::contains_point), s_cp, A, X);
           VRT_CHECK(r == in, s_cp + (r ? ":spurious" : ":missed"), "contains_point=%d, membership=%d", int(r), int(in));
+          probe(s_cp);
         }
         // extend_bounding_box(box, point) is not part of the statement's two-box clause.  Its documentation
         // ("the same box if the point is contained, else just big enough to hold the point") and the
@@ -501,18 +741,20 @@ template <class T, sz N> struct dom
         if (!inverted[a] && vrt::begin_text(n_ep, d))
         {
           vrt::nontrivial(!in);
-          rbox<N> const r = rd(fcppt::math::box::extend_bounding_box(A, X));
+          box const R_ = both(C13_FWD(fcppt::math::box::extend_bounding_box), s_ep, A, X);
+          rbox<N> const r = rd(R_);
           if (in)
-            VRT_CHECK(r == ra, s_ep + ":changed", "point is inside but the box changed to %s", show<N>(r).c_str());
+            VRT_CHECK(r == ra, s_ep + ":changed", "point is inside but the box changed to %s", raw(R_).c_str());
           rbox<N> want;
           for (sz i = 0; i < N; ++i)
           {
             want.p[i] = std::min(x[i], ra.p[i]);
             want.m[i] = std::max(x[i], ra.m[i]);
           }
-          VRT_CHECK(r == want, s_ep + ":hull", "got %s want closed hull %s", show<N>(r).c_str(), show<N>(want).c_str());
+          VRT_CHECK(r == want, s_ep + ":hull", "got %s want closed hull %s", raw(R_).c_str(), sh(want).c_str());
           if (!member<N>(r, x))
             vrt::count("info:extend_point_result_excludes_point(half-open)");
+          probe(s_ep);
         }
       }
     }
@@ -522,8 +764,8 @@ template <class T, sz N> struct dom
   template <sz I> void interval_check(box const &A, rbox<N> const &ra, std::string const &s) const
   {
     auto const t = fcppt::math::box::interval<I>(A);
-    VRT_CHECK(static_cast<T>(ra.p[I]) == fcppt::tuple::get<0>(t) && static_cast<T>(ra.m[I]) == fcppt::tuple::get<1>(t),
-              s + ":interval", "interval<%d> is not (pos,max)", int(I));
+    VRT_CHECK(C::to(ra.p[I]) == fcppt::tuple::get<0>(t) && C::to(ra.m[I]) == fcppt::tuple::get<1>(t), s + ":interval",
+              "interval<%d> is not (pos,max)", int(I));
   }
 
   void unary() const
@@ -534,14 +776,16 @@ template <class T, sz N> struct dom
     // the null box is the box at the origin with size zero; it is empty
     if (vrt::begin_text(n_obj, "null box"))
     {
-      rbox<N> const r = rd(fcppt::math::box::null<box>());
+      box const Z = fcppt::math::box::null<box>();
       rbox<N> zero;
-      VRT_CHECK(r == zero, s_obj + ":null", "null box is %s", show<N>(r).c_str());
+      VRT_CHECK(rd(Z) == zero, s_obj + ":null", "null box is %s", raw(Z).c_str());
+      probe(s_obj);
     }
     for (std::size_t const a : iter)
     {
       box const &A = fboxes[a];
       rbox<N> const &ra = boxes[a];
+      tarr const P = vals(ra.p), M = vals(ra.m);
       d.assign("a=");
       d += names[a];
       bool representable = true; // size = max - pos is representable in T
@@ -557,104 +801,266 @@ template <class T, sz N> struct dom
         vrt::nontrivial(nonempty[a] != 0);
         vrt::maybe_sample();
         VRT_CHECK(rd(A) == ra, s_obj + ":min_max_ctor", "pos()/max() differ from the constructor arguments");
-        pt<N> const sz_got = rdd(A.size());
-        if (representable)
+        if constexpr (C::arith && C::exact)
         {
-          VRT_CHECK(sz_got == sizes, s_obj + ":size", "size() is %s, max-pos is %s", show<N>(sz_got).c_str(),
-                    show<N>(sizes).c_str());
-          box const viadim(mkvec<T, N>(ra.p), mkdim<T, N>(sizes)); // (pos, size) constructor
-          VRT_CHECK(rd(viadim) == ra, s_obj + ":pos_dim_ctor", "box(pos,size) has max %s",
-                    show<N>(rd(viadim).m).c_str());
-          VRT_CHECK(viadim == A && !(viadim != A), s_obj + ":pos_dim_ctor_eq", "box(pos,size) != box(pos,pos+size)");
-          box const im = fcppt::math::box::init_dim<box>(
-              [&ra, &sizes]<sz I>(fcppt::math::size_constant<I>)
-              { return fcppt::tuple::make(static_cast<T>(ra.p[I]), static_cast<T>(sizes[I])); });
-          VRT_CHECK(rd(im) == ra, s_obj + ":init_dim", "init_dim gives %s", show<N>(rd(im)).c_str());
+          pt<N> const sz_got = rdd(A.size());
+          if (representable)
+            VRT_CHECK(sz_got == sizes, s_obj + ":size", "size() is %s, max-pos is %s", raw(A.size()).c_str(), sh(sizes).c_str());
+          if (nonempty[a])
+          {
+            // size = number of distinct coordinates of the point set per axis
+            ll vol = 1;
+            for (sz i = 0; i < N; ++i)
+            {
+              VRT_CHECK(sz_got[i] == maxpt[a][i] - minpt[a][i] + 1, s_obj + ":size_vs_points", "axis %d", int(i));
+              vol *= sz_got[i];
+            }
+            VRT_CHECK(static_cast<std::size_t>(vol) == masks[a].count(), s_obj + ":volume",
+                      "product of size() is %lld, %zu points", vol, masks[a].count());
+          }
+        }
+        if constexpr (C::arith && !C::exact)
+        {
+          // floating point: size() is the documented max - pos, evaluated in T
+          dimt const sz_got = A.size();
+          for (sz i = 0; i < N; ++i)
+            VRT_CHECK(sz_got.get_unsafe(i) == M[i] - P[i], s_obj + ":size", "axis %d: size() is %s", int(i), raw(sz_got).c_str());
         }
         if (nonempty[a])
         {
-          // consistent with the point set: pos = least point, max = greatest point + 1, size = number of
-          // distinct coordinates per axis
+          // consistent with the point set: pos = least point, max = least upper bound of the points
+          rbox<N> const got = rd(A);
           for (sz i = 0; i < N; ++i)
           {
-            VRT_CHECK(static_cast<ll>(A.pos().get_unsafe(i)) == minpt[a][i], s_obj + ":pos_vs_points", "axis %d", int(i));
-            VRT_CHECK(static_cast<ll>(A.max().get_unsafe(i)) == maxpt[a][i] + 1, s_obj + ":max_vs_points", "axis %d",
-                      int(i));
-            VRT_CHECK(sz_got[i] == maxpt[a][i] - minpt[a][i] + 1, s_obj + ":size_vs_points", "axis %d", int(i));
+            VRT_CHECK(got.p[i] == minpt[a][i], s_obj + ":pos_vs_points", "axis %d", int(i));
+            VRT_CHECK(got.m[i] == maxpt[a][i] + 1, s_obj + ":max_vs_points", "axis %d", int(i));
           }
-          ll vol = 1;
-          for (sz i = 0; i < N; ++i)
-            vol *= sz_got[i];
-          VRT_CHECK(static_cast<std::size_t>(vol) == masks[a].count(), s_obj + ":volume", "product of size() is %lld, %zu points",
-                    vol, masks[a].count());
         }
-        box const imx = fcppt::math::box::init_max<box>(
-            [&ra]<sz I>(fcppt::math::size_constant<I>)
-            { return fcppt::tuple::make(static_cast<T>(ra.p[I]), static_cast<T>(ra.m[I])); });
-        VRT_CHECK(rd(imx) == ra, s_obj + ":init_max", "init_max gives %s", show<N>(rd(imx)).c_str());
-        VRT_CHECK(A.left() == static_cast<T>(ra.p[0]) && A.right() == static_cast<T>(ra.m[0]), s_obj + ":left_right",
-                  "left/right");
+        VRT_CHECK(A.left() == P[0] && A.right() == M[0], s_obj + ":left_right", "left/right");
         interval_check<0>(A, ra, s_obj);
         if constexpr (N >= 2)
         {
-          VRT_CHECK(A.top() == static_cast<T>(ra.p[1]) && A.bottom() == static_cast<T>(ra.m[1]), s_obj + ":top_bottom",
-                    "top/bottom");
+          VRT_CHECK(A.top() == P[1] && A.bottom() == M[1], s_obj + ":top_bottom", "top/bottom");
           interval_check<1>(A, ra, s_obj);
         }
         if constexpr (N >= 3)
         {
-          VRT_CHECK(A.front() == static_cast<T>(ra.p[2]) && A.back() == static_cast<T>(ra.m[2]), s_obj + ":front_back",
-                    "front/back");
+          VRT_CHECK(A.front() == P[2] && A.back() == M[2], s_obj + ":front_back", "front/back");
           interval_check<2>(A, ra, s_obj);
         }
         // setters through the reference getters
-        box M = fboxes[0];
-        M.pos() = A.pos();
-        M.max() = A.max();
-        VRT_CHECK(rd(M) == ra, s_obj + ":setters", "pos()/max() as setters");
+        box Mb = fboxes[0];
+        Mb.pos() = A.pos();
+        Mb.max() = A.max();
+        VRT_CHECK(rd(Mb) == ra, s_obj + ":setters", "pos()/max() as setters");
+        probe(s_obj);
       }
-      // corner_points: the 2^N vertices; vertex k takes max on axis i iff bit i of k is set (order documented
-      // in vector::bit_strings)
-      if (vrt::begin_text(n_corner, d))
+      if constexpr (C::arith)
       {
-        vrt::nontrivial(nonempty[a] != 0);
-        auto const cp = fcppt::math::box::corner_points(A);
-        std::size_t const n = std::size_t(1) << N;
-        VRT_CHECK(cp.size() == n, s_corner + ":count", "%zu corners", std::size_t(cp.size()));
-        std::vector<pt<N>> got, want;
-        for (std::size_t k = 0; k < n && k < cp.size(); ++k)
+        // corner_points: the 2^N vertices pos + bits*size; vertex k takes max on axis i iff bit i of k is set
+        // (order documented in vector::bit_strings)
+        if (vrt::begin_text(n_corner, d))
         {
-          pt<N> g{}, w{};
-          for (sz i = 0; i < N; ++i)
+          vrt::nontrivial(nonempty[a] != 0);
+          auto const cp = fcppt::math::box::corner_points(A);
+          std::size_t const n = std::size_t(1) << N;
+          VRT_CHECK(cp.size() == n, s_corner + ":count", "%zu corners", std::size_t(cp.size()));
+          if constexpr (C::exact)
           {
-            g[i] = static_cast<ll>(cp.get_unsafe(k).get_unsafe(i));
-            w[i] = ((k >> i) & 1U) ? ra.m[i] : ra.p[i];
+            std::vector<pt<N>> got, want;
+            for (std::size_t k = 0; k < n && k < cp.size(); ++k)
+            {
+              pt<N> const g = rdv(cp.get_unsafe(k));
+              pt<N> w{};
+              for (sz i = 0; i < N; ++i)
+                w[i] = ((k >> i) & 1U) ? ra.m[i] : ra.p[i];
+              got.push_back(g);
+              want.push_back(w);
+            }
+            bool const order_ok = got == want;
+            std::sort(got.begin(), got.end());
+            std::sort(want.begin(), want.end());
+            VRT_CHECK(got == want, s_corner + ":set", "the corners are not {pos_i,max_i}^N");
+            if (got == want)
+              VRT_CHECK(order_ok, s_corner + ":order", "corner order differs from bit_strings order");
           }
-          got.push_back(g);
-          want.push_back(w);
+          else
+          {
+            // floating point: the documented formula pos + bit*size in T (bit = 0 gives pos exactly)
+            for (std::size_t k = 0; k < n && k < cp.size(); ++k)
+              for (sz i = 0; i < N; ++i)
+              {
+                T const bit = static_cast<T>((k >> i) & 1U);
+                T const want = P[i] + bit * (M[i] - P[i]);
+                VRT_CHECK(cp.get_unsafe(k).get_unsafe(i) == want, s_corner + ":set", "corner %zu axis %d is %s", k, int(i),
+                          C::raw(cp.get_unsafe(k).get_unsafe(i)).c_str());
+                if (((k >> i) & 1U) == 0)
+                  VRT_CHECK(cp.get_unsafe(k).get_unsafe(i) == P[i], s_corner + ":set", "corner %zu axis %d is not pos", k, int(i));
+              }
+          }
+          probe(s_corner);
         }
-        bool const order_ok = got == want;
-        std::sort(got.begin(), got.end());
-        std::sort(want.begin(), want.end());
-        VRT_CHECK(got == want, s_corner + ":set", "the corners are not {pos_i,max_i}^N");
-        if (got == want)
-          VRT_CHECK(order_ok, s_corner + ":order", "corner order differs from bit_strings order");
+        // center: pos + size/2 computed in T (documented as possibly not the real centre); for a non-empty box
+        // it is a point of the box
+        if (!inverted[a] && vrt::begin_text(n_center, d))
+        {
+          vrt::nontrivial(nonempty[a] != 0);
+          vec const cv = fcppt::math::box::center(A);
+          if constexpr (C::exact)
+          {
+            pt<N> const c = rdv(cv);
+            for (sz i = 0; i < N; ++i)
+            {
+              ll const twice = 2 * c[i] - (ra.p[i] + ra.m[i]);
+              VRT_CHECK(twice == 0 || twice == -1, s_center + ":wrong", "axis %d: centre %lld of [%lld,%lld)", int(i), c[i],
+                        ra.p[i], ra.m[i]);
+            }
+            if (nonempty[a])
+              VRT_CHECK(member<N>(ra, c), s_center + ":outside", "centre %s is not a point of the box", sh(c).c_str());
+          }
+          else
+          {
+            for (sz i = 0; i < N; ++i)
+            {
+              T const want = P[i] + (M[i] - P[i]) / static_cast<T>(2);
+              T const got = cv.get_unsafe(i);
+              VRT_CHECK(got == want, s_center + ":wrong", "axis %d: centre %s", int(i), C::raw(got).c_str());
+              if (nonempty[a])
+                VRT_CHECK(P[i] <= got && got < M[i], s_center + ":outside", "axis %d: centre %s is outside", int(i),
+                          C::raw(got).c_str());
+            }
+          }
+          probe(s_center);
+        }
       }
-      // center: pos + size/2 computed in T (documented as possibly not the real centre); for a non-empty box
-      // it is a point of the box and within 1/2 of the real centre
-      if (!inverted[a] && vrt::begin_text(n_center, d))
+    }
+  }
+
+  // ------------------------------------------------------------------ every way of constructing a box
+  // (min,max), (pos,size), init_max, init_dim, structure_cast, copy/move construction and assignment, each with
+  // lvalue and with rvalue arguments.  Whatever the way, the box must have the stated corners and contain
+  // exactly the points of [pos, max) / [pos, pos+size).
+  void membership(box const &B, rbox<N> const &want, std::string const &s, char const *how) const
+  {
+    rbox<N> const got = rd(B);
+    if (!(got == want))
+    {
+      vrt::fail(s + ":" + how, "box is " + raw(B) + ", expected " + sh(want));
+      return;
+    }
+    for (std::size_t k = 0; k < points.size(); ++k)
+      if (fcppt::math::box::contains_point(B, mkvec(points[k])) != member<N>(want, points[k]))
       {
-        vrt::nontrivial(nonempty[a] != 0);
-        pt<N> const c = rdv(fcppt::math::box::center(A));
+        vrt::fail(s + ":" + how + ":membership", "point " + sh(points[k]) + " of box " + raw(B));
+        return;
+      }
+  }
+
+  void construct() const
+  {
+    char const *n_c = fn("construct");
+    std::string const s = n_c;
+    std::string d;
+    for (std::size_t const a : iter)
+    {
+      if (vrt::out_of_time())
+        return;
+      rbox<N> const &ra = boxes[a];
+      d.assign("a=");
+      d += names[a];
+      if (!vrt::begin_text(n_c, d))
+        continue;
+      vrt::nontrivial(nonempty[a] != 0);
+      vrt::maybe_sample();
+      tarr const P = vals(ra.p), M = vals(ra.m);
+      {
+        vec const p = mkvec(ra.p), m = mkvec(ra.m);
+        box const b1(p, m); // (min,max), lvalues
+        membership(b1, ra, s, "min_max_lvalue");
+        VRT_CHECK(rdv(p) == ra.p && rdv(m) == ra.m, s + ":min_max_lvalue:argument_changed", "lvalue arguments were modified");
+        box const b2(mkvec(ra.p), mkvec(ra.m)); // temporaries
+        membership(b2, ra, s, "min_max_rvalue");
+        vec p3 = mkvec(ra.p), m3 = mkvec(ra.m);
+        box const b3(std::move(p3), std::move(m3)); // moved-from named objects
+        membership(b3, ra, s, "min_max_moved");
+        box const b4 = fcppt::math::box::init_max<box>([&P, &M]<sz I>(fcppt::math::size_constant<I>)
+                                                       { return fcppt::tuple::make(T(P[I]), T(M[I])); });
+        membership(b4, ra, s, "init_max");
+        // copies and moves of the box itself
+        box const c1(b1);
+        membership(c1, ra, s, "copy_ctor");
+        membership(b1, ra, s, "copy_ctor:source");
+        box src(b1);
+        box const c2(std::move(src));
+        membership(c2, ra, s, "move_ctor");
+        box c3 = fboxes[0];
+        c3 = b1;
+        membership(c3, ra, s, "copy_assign");
+        membership(b1, ra, s, "copy_assign:source");
+        box c4 = fboxes[fboxes.size() - 1];
+        box src2(b1);
+        c4 = std::move(src2);
+        membership(c4, ra, s, "move_assign");
+      }
+      if constexpr (C::arith)
+      {
+        bool representable = true;
+        pt<N> sizes{};
+        tarr D{}, PD{}; // size in T, and pos + size in T
         for (sz i = 0; i < N; ++i)
         {
-          ll const twice = 2 * c[i] - (ra.p[i] + ra.m[i]);
-          VRT_CHECK(twice == 0 || twice == -1, s_center + ":wrong", "axis %d: centre %lld of [%lld,%lld)", int(i), c[i],
-                    ra.p[i], ra.m[i]);
+          sizes[i] = ra.m[i] - ra.p[i];
+          if (is_unsigned && sizes[i] < 0)
+            representable = false;
+          D[i] = static_cast<T>(M[i] - P[i]);
+          PD[i] = static_cast<T>(P[i] + D[i]);
         }
-        if (nonempty[a])
-          VRT_CHECK(member<N>(ra, c), s_center + ":outside", "centre %s is not a point of the box", show<N>(c).c_str());
+        if (representable)
+        {
+          // box(pos,size) is the set [pos, pos+size): for integer-like T that is the box a itself; for floating
+          // point pos+size is evaluated in T (same formula) and, when it is a lattice value, membership follows
+          auto const check = [&](box const &B, char const *how)
+          {
+            if constexpr (C::exact)
+              membership(B, ra, s, how);
+            else
+            {
+              bool ok = true;
+              for (sz i = 0; i < N; ++i)
+                if (!(B.pos().get_unsafe(i) == P[i] && B.max().get_unsafe(i) == PD[i]))
+                  ok = false;
+              if (!ok)
+                vrt::fail(s + ":" + how, "box is " + raw(B) + ", expected pos " + sh(ra.p) + " and max = pos+size evaluated in T");
+              for (sz i = 0; i < N; ++i) // size() gives back max - pos, whatever the rounding
+                VRT_CHECK(B.size().get_unsafe(i) == PD[i] - P[i], s + ":" + how + ":size", "axis %d", int(i));
+            }
+          };
+          vec const p = mkvec_t<T, N>(P);
+          dimt const dd = mkdim_t<T, N>(D);
+          box const b1(p, dd); // lvalues
+          check(b1, "pos_size_lvalue");
+          bool unchanged = true;
+          for (sz i = 0; i < N; ++i)
+            if (!(p.get_unsafe(i) == P[i] && dd.get_unsafe(i) == D[i]))
+              unchanged = false;
+          VRT_CHECK(unchanged, s + ":pos_size_lvalue:argument_changed", "lvalue arguments were modified");
+          box const b2(mkvec_t<T, N>(P), mkdim_t<T, N>(D)); // temporaries
+          check(b2, "pos_size_rvalue");
+          vec p3 = mkvec_t<T, N>(P);
+          dimt d3 = mkdim_t<T, N>(D);
+          box const b3(std::move(p3), std::move(d3));
+          check(b3, "pos_size_moved");
+          box const b4 = fcppt::math::box::init_dim<box>([&P, &D]<sz I>(fcppt::math::size_constant<I>)
+                                                         { return fcppt::tuple::make(T(P[I]), T(D[I])); });
+          check(b4, "init_dim");
+          // structure_cast to the same box type with a static_cast per element goes through (pos,size)
+          box const b5 = fcppt::math::box::structure_cast<box, fcppt::cast::static_cast_fun>(fboxes[a]);
+          check(b5, "structure_cast");
+          if constexpr (C::exact)
+            VRT_CHECK(b1 == fboxes[a] && !(b1 != fboxes[a]), s + ":pos_size_eq", "box(pos,size) != box(pos,pos+size)");
+        }
       }
+      probe(s);
     }
   }
 
@@ -663,11 +1069,101 @@ template <class T, sz N> struct dom
   // stretch_absolute(b,v)  = { x : x+d in b for SOME d with |d_i| <= v_i }  (dilation; non-empty b only)
   void shrink_stretch(ll vmax) const
   {
+    if constexpr (!C::arith)
+      return;
+    else if constexpr (!C::exact)
+      shrink_stretch_fp();
+    else
+    {
+      char const *n_sh = fn("shrink"), *n_st = fn("stretch_absolute");
+      std::string const s_sh = n_sh, s_st = n_st;
+      ll const blo = is_unsigned ? std::max<ll>(lo - vmax - 1, 0) : lo - vmax - 1, bhi = hi + vmax + 1;
+      std::vector<pt<N>> const big = grid<N>(blo, bhi);
+      std::vector<pt<N>> const vs = grid<N>(0, vmax);
+      std::string d;
+      for (std::size_t const a : iter)
+      {
+        if (vrt::out_of_time())
+          return;
+        box const &A = fboxes[a];
+        rbox<N> const &ra = boxes[a];
+        for (pt<N> const &v : vs)
+        {
+          d.assign("a=");
+          d += names[a];
+          d += " v=";
+          d += sh(v);
+          bool any_v = false, sh_repr = true, st_repr = true;
+          for (sz i = 0; i < N; ++i)
+          {
+            if (v[i] > 0)
+              any_v = true;
+            if (is_unsigned && ra.m[i] - v[i] < 0)
+              sh_repr = false;
+            if (is_unsigned && ra.p[i] - v[i] < 0)
+              st_repr = false;
+          }
+          std::vector<pt<N>> const cube = offsets(v);
+          vec const V = mkvec(v);
+          for (int which = 0; which < 2; ++which)
+          {
+            bool const is_shrink = which == 0;
+            if (is_shrink ? !sh_repr : (!st_repr || !nonempty[a]))
+              continue;
+            if (!vrt::begin_text(is_shrink ? n_sh : n_st, d))
+              continue;
+            vrt::nontrivial(any_v && nonempty[a]);
+            vrt::maybe_sample();
+            std::string const &s = is_shrink ? s_sh : s_st;
+            box const R_ = is_shrink ? both(C13_FWD(fcppt::math::box::shrink), s, A, V)
+                                     : both(C13_FWD(fcppt::math::box::stretch_absolute), s, A, V);
+            rbox<N> const r = rd(R_);
+            bool in_range = true;
+            for (sz i = 0; i < N; ++i)
+              if (r.p[i] < blo || r.p[i] > bhi || r.m[i] < blo || r.m[i] > bhi)
+                in_range = false;
+            VRT_CHECK(in_range, s + ":corner_out_of_range", "result %s", raw(R_).c_str());
+            for (pt<N> const &x : big)
+            {
+              bool want = is_shrink;
+              for (pt<N> const &o : cube)
+              {
+                pt<N> y = x;
+                for (sz i = 0; i < N; ++i)
+                  y[i] += o[i];
+                bool const in = member<N>(ra, y);
+                if (is_shrink && !in)
+                {
+                  want = false;
+                  break;
+                }
+                if (!is_shrink && in)
+                {
+                  want = true;
+                  break;
+                }
+              }
+              if (member<N>(r, x) != want)
+              {
+                vrt::fail(s + ":point_set", "result " + sh(r) + (want ? " misses " : " wrongly contains ") + sh(x));
+                break;
+              }
+            }
+            probe(s);
+          }
+        }
+      }
+    }
+  }
+
+  // floating point: the corners are the documented pos+v / max-v (pos-v / max+v) evaluated in T; rounding is
+  // monotone, so for v >= 0 shrink(b,v) is a subset of b and stretch_absolute(b,v) a superset, point by point
+  void shrink_stretch_fp() const
+  {
     char const *n_sh = fn("shrink"), *n_st = fn("stretch_absolute");
     std::string const s_sh = n_sh, s_st = n_st;
-    ll const blo = is_unsigned ? std::max<ll>(lo - vmax - 1, 0) : lo - vmax - 1, bhi = hi + vmax + 1;
-    std::vector<pt<N>> const big = grid<N>(blo, bhi);
-    std::vector<pt<N>> const vs = grid<N>(0, vmax);
+    T const amounts[4] = {static_cast<T>(0), static_cast<T>(0.1), static_cast<T>(0.25), static_cast<T>(1)};
+    std::vector<pt<N>> const vs = grid<N>(0, 3);
     std::string d;
     for (std::size_t const a : iter)
     {
@@ -675,65 +1171,52 @@ template <class T, sz N> struct dom
         return;
       box const &A = fboxes[a];
       rbox<N> const &ra = boxes[a];
-      for (pt<N> const &v : vs)
+      tarr const P = vals(ra.p), M = vals(ra.m);
+      for (pt<N> const &vi : vs)
       {
+        tarr v{};
         d.assign("a=");
         d += names[a];
-        d += " v=";
-        d += show<N>(v);
-        bool any_v = false, sh_repr = true, st_repr = true;
-        pt<N> mv{};
+        d += " v=(";
         for (sz i = 0; i < N; ++i)
         {
-          if (v[i] > 0)
-            any_v = true;
-          if (is_unsigned && ra.m[i] - v[i] < 0)
-            sh_repr = false;
-          if (is_unsigned && ra.p[i] - v[i] < 0)
-            st_repr = false;
-          mv[i] = -v[i];
+          v[i] = amounts[vi[i]];
+          d += (i ? "," : "") + C::raw(v[i]);
         }
-        std::vector<pt<N>> const cube = offsets(v);
-        vec const V = mkvec<T, N>(v);
+        d += ")";
+        vec const V = mkvec_t<T, N>(v);
         for (int which = 0; which < 2; ++which)
         {
           bool const is_shrink = which == 0;
-          if (is_shrink ? !sh_repr : (!st_repr || !nonempty[a]))
+          if (!is_shrink && !nonempty[a])
             continue;
           if (!vrt::begin_text(is_shrink ? n_sh : n_st, d))
             continue;
-          vrt::nontrivial(any_v && nonempty[a]);
-          vrt::maybe_sample();
+          vrt::nontrivial(nonempty[a] != 0);
           std::string const &s = is_shrink ? s_sh : s_st;
-          rbox<N> const r = rd(is_shrink ? fcppt::math::box::shrink(A, V) : fcppt::math::box::stretch_absolute(A, V));
-          bool in_range = true;
+          box const R_ = is_shrink ? both(C13_FWD(fcppt::math::box::shrink), s, A, V)
+                                   : both(C13_FWD(fcppt::math::box::stretch_absolute), s, A, V);
+          bool ok = true;
           for (sz i = 0; i < N; ++i)
-            if (r.p[i] < blo || r.p[i] > bhi || r.m[i] < blo || r.m[i] > bhi)
-              in_range = false;
-          VRT_CHECK(in_range, s + ":corner_out_of_range", "result %s", show<N>(r).c_str());
-          for (pt<N> const &x : big)
           {
-            bool want = is_shrink;
-            for (pt<N> const &o : cube)
+            T const wp = is_shrink ? P[i] + v[i] : P[i] - v[i], wm = is_shrink ? M[i] - v[i] : M[i] + v[i];
+            if (!(R_.pos().get_unsafe(i) == wp && R_.max().get_unsafe(i) == wm))
+              ok = false;
+          }
+          VRT_CHECK(ok, s + ":corners", "result %s", raw(R_).c_str());
+          for (std::size_t k = 0; k < points.size(); ++k)
+          {
+            bool in_r = true;
+            for (sz i = 0; i < N; ++i)
             {
-              pt<N> y = x;
-              for (sz i = 0; i < N; ++i)
-                y[i] += o[i];
-              bool const in = member<N>(ra, y);
-              if (is_shrink && !in)
-              {
-                want = false;
-                break;
-              }
-              if (!is_shrink && in)
-              {
-                want = true;
-                break;
-              }
+              T const x = C::to(points[k][i]);
+              if (!(R_.pos().get_unsafe(i) <= x && x < R_.max().get_unsafe(i)))
+                in_r = false;
             }
-            if (member<N>(r, x) != want)
+            bool const in_a = masks[a].test(k);
+            if (is_shrink ? (in_r && !in_a) : (in_a && !in_r))
             {
-              vrt::fail(s + ":point_set", "result " + show<N>(r) + (want ? " misses " : " wrongly contains ") + show<N>(x));
+              vrt::fail(s + ":point_set", "result " + raw(R_) + (is_shrink ? " is no subset: " : " is no superset: ") + sh(points[k]));
               break;
             }
           }
@@ -771,34 +1254,27 @@ template <class T, sz N> struct dom
   }
 };
 
-// corner range of "radius" r: [-r,r] for signed T, [0,2r] for unsigned T
-template <class T> inline std::pair<ll, ll> range(ll r)
-{
-  if constexpr (std::is_unsigned_v<T>)
-    return {0, 2 * r};
-  else
-    return {-r, r};
-}
-
 // The corner "radius" is chosen inside the shard (the tier is not known while shards are registered):
 // rq in the quick tier, rt in the thorough tier.  Shard names do not depend on the tier.
-template <class T, sz N> inline void reg_small(std::string const &name, ll rq, ll rt, ll vmax)
+template <class T, sz N, class C = typename default_coord<T>::type>
+inline void reg_small(std::string const &name, ll rq, ll rt, ll vmax)
 {
   vrt::shard(name, [rq, rt, vmax] {
-    auto const rg = range<T>(vrt::thorough() ? rt : rq);
-    dom<T, N> const D(rg.first, rg.second, false);
+    auto const rg = C::range(vrt::thorough() ? rt : rq);
+    dom<T, N, C> const D(rg.first, rg.second, false);
     D.unary();
+    D.construct();
     D.point_cases();
     D.shrink_stretch(vmax);
   });
 }
-template <class T, sz N>
+template <class T, sz N, class C = typename default_coord<T>::type>
 inline void reg_pairs(std::string const &name, ll rq, ll rt, bool only_nonempty, unsigned nparts)
 {
   for (unsigned p = 0; p < nparts; ++p)
     vrt::shard(name + "/" + std::to_string(p), [rq, rt, only_nonempty, p, nparts] {
-      auto const rg = range<T>(vrt::thorough() ? rt : rq);
-      dom<T, N> const D(rg.first, rg.second, only_nonempty);
+      auto const rg = C::range(vrt::thorough() ? rt : rq);
+      dom<T, N, C> const D(rg.first, rg.second, only_nonempty);
       D.pairs(p, nparts);
     });
 }
@@ -807,6 +1283,9 @@ inline void reg_pairs(std::string const &name, ll rq, ll rt, bool only_nonempty,
 void reg_int();
 void reg_unsigned();
 void reg_wide();
+void reg_float();
+void reg_double();
+void reg_heap();
 
 template <class T> inline void reg_full()
 {
@@ -823,6 +1302,24 @@ template <class T> inline void reg_full()
   // wider corner ranges, non-empty boxes only (all relative placements with gaps and strict nesting)
   reg_pairs<T, 2>("pairs_nonempty<" + t + ",2>", 3, 5, true, 16);
   reg_pairs<T, 3>("pairs_nonempty<" + t + ",3>", 2, 2, true, 8);
+}
+
+// floating-point coordinate types
+template <class T> inline void reg_fp()
+{
+  std::string const t = tname<T>::v;
+  // decimal (non-dyadic) corners c/10 with both floating-point neighbours of every corner as probe points
+  // 1-D: c in [-15,15] quick, [-30,30] thorough; all boxes, all pairs
+  reg_small<T, 1>("single<" + t + ",1>", 15, 30, 0);
+  reg_pairs<T, 1>("pairs<" + t + ",1>", 15, 30, false, 16);
+  // 2-D: c in [-2,2] quick, [-3,3] thorough; all boxes, all pairs
+  reg_small<T, 2>("single<" + t + ",2>", 2, 3, 0);
+  reg_pairs<T, 2>("pairs<" + t + ",2>", 2, 3, false, 16);
+  // extreme corners (+-infinity, +-max, denormals, ...): comparison/selection functions only
+  reg_small<T, 1, coord_ext<T, 0>>("single<" + t + ":extreme,1>", 0, 0, 0);
+  reg_pairs<T, 1, coord_ext<T, 0>>("pairs<" + t + ":extreme,1>", 0, 0, false, 1);
+  reg_small<T, 2, coord_ext<T, 1>>("single<" + t + ":extreme,2>", 0, 0, 0);
+  reg_pairs<T, 2, coord_ext<T, 1>>("pairs<" + t + ":extreme,2>", 0, 0, false, 16);
 }
 }
 
